@@ -131,7 +131,6 @@ func (g *lgen) genNode(parent *node, depth int) *node {
 			}
 		}
 	}
-	n.steps = g.genSteps(n, depth, 2, false)
 	w := g.r.Intn(100)
 	switch {
 	case w < 42:
@@ -150,6 +149,15 @@ func (g *lgen) genNode(parent *node, depth int) *node {
 	default:
 		n.term = tCoLoop
 		g.usesCo = true
+	}
+	if n.term == tMemHog {
+		// a context with a small memory limit of its own only computes before it
+		// hogs memory: the status prediction relies on cpu margins, not memory margins
+		for i := g.r.Intn(3); i > 0; i-- {
+			n.steps = append(n.steps, step{k: sBurn, n: 1 + g.r.Intn(120)})
+		}
+	} else {
+		n.steps = g.genSteps(n, depth, 2, false)
 	}
 	if n.term != tMemHog && parent != nil && g.r.Intn(8) == 0 {
 		n.M = uint64(2000000 + g.r.Intn(1000000))
@@ -617,46 +625,78 @@ func genLuaCase(seed int64) *luaCase {
 // desync templates: a coroutine yields while a context opened on ITS Go stack
 // is active, and the resumer leaves (or enters) a context of its own meanwhile.
 var desyncTemplates = []struct{ name, body string }{
+	// the resumer is inside a callcontext and leaves it while the coroutine is suspended inside pcall
 	{"yield-in-pcall-then-leave", `
-local d0 = depth()
-local c = rtm.callcontext({kill={cpu=%d}}, function()
+local kb, d0 = rtm.context().kill.cpu or 0, depth()
+local c = rtm.callcontext({kill={cpu=K}}, function()
   local co = coroutine.wrap(function() pcall(coroutine.yield) end)
   co()
   return 1
 end)
-local d1 = depth()
-c07rep(0, c, c.status, c.kill.cpu or 0, 0, 0, 0, 0, c.used.cpu or 0, 0, c.due, c.flags, nil, 0, 0, 0, 0, 0, 0, 0, "", d0, d1)
+trep(c, nil, kb, rtm.context().kill.cpu or 0, d0, depth())
 `},
+	// the same with a limited context opened by the coroutine
 	{"yield-in-callcontext-then-leave", `
-local d0 = depth()
-local c = rtm.callcontext({kill={cpu=%d}}, function()
+local kb, d0 = rtm.context().kill.cpu or 0, depth()
+local c = rtm.callcontext({kill={cpu=K}}, function()
   local co = coroutine.wrap(function() rtm.callcontext({kill={cpu=500}}, coroutine.yield) end)
   co()
   return 1
 end)
-local d1 = depth()
-c07rep(0, c, c.status, c.kill.cpu or 0, 0, 0, 0, 0, c.used.cpu or 0, 0, c.due, c.flags, nil, 0, 0, 0, 0, 0, 0, 0, "", d0, d1)
+trep(c, nil, kb, rtm.context().kill.cpu or 0, d0, depth())
 `},
+	// a coroutine suspended inside a pcall made OUTSIDE the limited context is resumed inside it
 	{"resume-pending-pcall-inside", `
 local co = coroutine.wrap(function() pcall(function() coroutine.yield() end) end)
 co()
-local d0 = depth()
+local kb, d0 = rtm.context().kill.cpu or 0, depth()
 local inside
-local c = rtm.callcontext({kill={cpu=%d}}, function()
+local c = rtm.callcontext({kill={cpu=K}}, function()
   co()
   inside = rtm.context().kill.cpu or 0
   return 1
 end)
-local d1 = depth()
-c07rep(0, c, c.status, c.kill.cpu or 0, 0, 0, 0, 0, c.used.cpu or 0, 0, c.due, c.flags, inside, 0, 0, 0, 0, 0, 0, 0, "", d0, d1)
+trep(c, inside, kb, rtm.context().kill.cpu or 0, d0, depth())
+`},
+	// the coroutine opens a context with a large limit, yields, is resumed from inside a small
+	// context that then ends, and is resumed again: its own context dies under the stale small limit
+	{"resume-after-leave", `
+local inner
+local T = coroutine.create(function()
+  inner = rtm.callcontext({kill={cpu=K*100}}, function()
+    coroutine.yield("y1")
+    local x = 0
+    for i = 1, K do x = x + i end
+    return x
+  end)
+end)
+local kb, d0 = rtm.context().kill.cpu or 0, depth()
+local c = rtm.callcontext({kill={cpu=K}}, function() coroutine.resume(T) return 1 end)
+local ka, d1 = rtm.context().kill.cpu or 0, depth()
+pcall(coroutine.resume, T)
+trep(c, inner and ("inner:" .. inner.status .. ":" .. (inner.used.cpu or 0)), kb, ka, d0, d1)
+`},
+	// no context of the resumer's involved: after the coroutine yielded inside its callcontext the
+	// top-level code runs under that context's limit
+	{"yield-in-callcontext-resumer-at-top", `
+local T = coroutine.wrap(function() rtm.callcontext({kill={cpu=K}}, coroutine.yield) end)
+local kb, d0 = rtm.context().kill.cpu or 0, depth()
+T()
+trep(nil, nil, kb, rtm.context().kill.cpu or 0, d0, depth())
 `},
 }
+
+const templatePrelude = `
+local function trep(c, r, kb, ka, d0, d1)
+  c07rep(0, c, c and c.status or "none", c and (c.kill.cpu or 0) or K, 0, 0, 0, 0, c and (c.used.cpu or 0) or 0, 0, c and c.due or false, c and c.flags or "", r, 0, 0, 0, 0, kb, ka, 0, "", d0, d1)
+end
+`
 
 func genDesyncCase(i int, r *rand.Rand) *luaCase {
 	t := desyncTemplates[i%len(desyncTemplates)]
 	K := uint64(5000 + r.Intn(20000))
 	n := &node{id: 0, K: K, ownK: true, term: tRet, status: "done"}
-	text := fmt.Sprintf("-- c07 lua template=%s K=%d\n", t.name, K) + prelude + fmt.Sprintf(t.body, K)
+	text := fmt.Sprintf("-- c07 lua template=%s K=%d\nlocal K = %d\n", t.name, K, K) + prelude + templatePrelude + t.body
 	return &luaCase{text: text, root: n, nodes: []*node{n}, L0: 0, class: t.name}
 }
 
@@ -687,10 +727,16 @@ func (h *luaHost) runCase(c *vp.Child, lc *luaCase, idx int) (ok bool) {
 		if d1 != d0 {
 			sym = append(sym, fmt.Sprintf("context stack depth %d after the chunk, %d before", d1, d0))
 		}
+		if len(h.events) == 0 {
+			sym = append(sym, "the chunk did not get to its report")
+		}
 		for i := range h.events {
 			e := &h.events[i]
 			if e.d0 != e.d1 {
-				sym = append(sym, fmt.Sprintf("context stack depth %d after runtime.callcontext returned, %d before", e.d1, e.d0))
+				sym = append(sym, fmt.Sprintf("context stack depth %d after the call returned, %d before", e.d1, e.d0))
+			}
+			if e.pk != e.pkm {
+				sym = append(sym, fmt.Sprintf("the active context's kill.cpu is %d after the call returned, %d before (0 = unlimited): the caller now runs in somebody else's context", e.pkm, e.pk))
 			}
 			if e.killCpu != lc.root.K {
 				sym = append(sym, fmt.Sprintf("the context returned by runtime.callcontext({kill={cpu=%d}}, f) has kill.cpu=%d: it is not the context f ran in", lc.root.K, e.killCpu))
@@ -698,9 +744,13 @@ func (h *luaHost) runCase(c *vp.Child, lc *luaCase, idx int) (ok bool) {
 			if in, isInt := e.res.TryInt(); isInt && uint64(in) != lc.root.K && lc.class == "resume-pending-pcall-inside" {
 				sym = append(sym, fmt.Sprintf("inside runtime.callcontext({kill={cpu=%d}}, f), after resuming the coroutine, f runs under kill.cpu=%d (0 = unlimited)", lc.root.K, in))
 			}
+			if rs, isStr := e.res.TryString(); isStr && strings.HasPrefix(rs, "inner:killed") {
+				sym = append(sym, fmt.Sprintf("the coroutine's own context (kill.cpu=%d) ended %s (status:used): it was killed by the stale limit %d of a context that had already returned", lc.root.K*100, rs, lc.root.K))
+			}
 		}
 		c.Feature("template/"+lc.class, 1)
 		if len(sym) > 0 {
+			c.Feature("template-fired/"+lc.class, 1)
 			viol("desync", "lua coroutine-yield-across-context "+lc.class, strings.Join(sym, "\n"))
 		}
 		return false // the runtime's context stack cannot be trusted after these
